@@ -83,13 +83,14 @@ type Case struct {
 	Engine string `json:"engine"` // "sched" | "free"
 	// Elem is the element type the queues are instantiated with: "" = reqmeta.Data (internal/reghttp, blob copy),
 	// "empty" = struct{} with the default Next, as cmd/regsync (type throttle struct{}) and cmd/regbot configure it.
-	Elem     string     `json:"elem,omitempty"`
-	Queues   []QueueCfg `json:"queues"`
-	Workers  [][]Op     `json:"workers"`
-	Schedule []int      `json:"schedule,omitempty"`
-	Procs    int        `json:"procs,omitempty"` // free engine: GOMAXPROCS
-	Tmpl     string     `json:"tmpl,omitempty"`  // generator template the case came from (label only)
-	Copy     *CopyCase  `json:"copy,omitempty"`  // engine "copy": concurrent RegClient.BlobCopy calls (copy.go)
+	Elem     string      `json:"elem,omitempty"`
+	Queues   []QueueCfg  `json:"queues"`
+	Workers  [][]Op      `json:"workers"`
+	Schedule []int       `json:"schedule,omitempty"`
+	Procs    int         `json:"procs,omitempty"`  // free engine: GOMAXPROCS
+	Tmpl     string      `json:"tmpl,omitempty"`   // generator template the case came from (label only)
+	Copy     *CopyCase   `json:"copy,omitempty"`   // engine "copy": concurrent RegClient.BlobCopy calls (copy.go)
+	Layout   *LayoutCase `json:"layout,omitempty"` // engine "layout": the per-path write throttle of an OCI layout (layout.go)
 }
 
 // normalise clamps a (possibly hand-edited) case into the stated domain.
